@@ -435,8 +435,11 @@ def r14_16(run, model):
     loop = loops[0]
     cand = None
     for l in S.find(loop["body"], "Local"):
-        if l["pat"]["k"] == "PIdent" and l.get("init") is not None and ".interface" in S.norm_ws(run.facts.text(SEP, l["init"]["sp"])):
-            cand = l["pat"]["name"]
+        if l["pat"]["k"] == "PIdent" and l.get("init") is not None and (
+                ".interface" in S.norm_ws(run.facts.text(SEP, l["init"]["sp"])) or
+                (S.idents(l["init"]) & set(S.pat_bindings(loop["pat"])) and
+                 any(c["k"] == "MethodCall" and c["method"] in ("join", "with_extension", "with_file_name") for c in S.walk(l["init"])))):
+            cand = cand or l["pat"]["name"]
     if cand is None:
         raise AnalysisIncomplete("load_interface_from_paths: candidate path binding not found")
     par = S.Parents(loop["body"])
